@@ -7,11 +7,12 @@ temporary copy of the touched files only."""
 import sys, os, subprocess, json, shutil, re, tempfile
 sys.path.insert(0, '/verif/mutants')
 import corpus
+REPO = os.environ.get('VERIF_REPO', '/repo')
 M = {m['id']: m for m in corpus.M}
 CONTROLS = "m07a m07c m08d m12e m12f m17c m17d m18a m18c m19c n01 n02 n04 n09 n14 n15 n20".split()
 
 def mutated(m):
-    src = open('/repo/' + m['file']).read()
+    src = open(REPO + '/' + m['file']).read()
     n = src.count(m['old'])
     if m.get('nth') is None:
         assert n == 1, (m['id'], 'old occurs', n)
@@ -39,19 +40,19 @@ def overlay_for(name):
         tmp = tempfile.mkdtemp(prefix='ovl', dir='/verif/.work')
         for f in files:
             os.makedirs(os.path.dirname(os.path.join(tmp, f)), exist_ok=True)
-            if os.path.exists('/repo/' + f):
-                shutil.copy('/repo/' + f, os.path.join(tmp, f))
+            if os.path.exists(REPO + '/' + f):
+                shutil.copy(REPO + '/' + f, os.path.join(tmp, f))
         subprocess.check_call(['git', 'apply', '--unsafe-paths', '--directory=' + tmp, patch], cwd='/')
         for f in files:
             dst = os.path.join(d, f.replace('/', '__'))
             shutil.copy(os.path.join(tmp, f), dst)
-            ov['/repo/' + f] = dst
+            ov[REPO + '/' + f] = dst
         shutil.rmtree(tmp)
     else:
         m = M[name]
         dst = os.path.join(d, m['file'].replace('/', '__'))
         open(dst, 'w').write(mutated(m))
-        ov['/repo/' + m['file']] = dst
+        ov[REPO + '/' + m['file']] = dst
     return ov
 
 def main():
